@@ -235,13 +235,14 @@ fn run_guarded<C: Check>(check: &C, case: &C::Case) -> (Verdict, CaseInfo) {
         Ok(r) => r,
         Err(_) => {
             let msg = take_last_panic().unwrap_or_else(|| "panic".into());
-            (
-                Verdict::Fail {
-                    sig: "harness-panic".into(),
-                    msg: format!("panic while running case: {msg}"),
-                },
-                CaseInfo::default(),
-            )
+            // a panic raised inside scrayosnet/passage (its files are compiled from /repo) is a finding; a panic of the
+            // harness itself (a listener that did not come up, a refused connect, ...) decides nothing
+            let in_passage = msg.lines().next().is_some_and(|l| l.contains("panicked at /repo/"));
+            if in_passage {
+                (Verdict::Fail { sig: "panic-in-passage-code".into(), msg: format!("panic while running case: {msg}") }, CaseInfo::default())
+            } else {
+                (Verdict::Inconclusive(format!("harness panic: {}", msg.replace('\n', " | "))), CaseInfo::default())
+            }
         }
     }
 }
